@@ -64,6 +64,23 @@ def spell(value, typ, rnd, literal_spelling=True):
     return value
 
 
+def optional_semicolons(tokens, rnd, p=0.5):
+    """The grammar lets a `;` stand or be missing before the `end`, `catch` or `finally` that closes a statement sequence of a
+    do-block (and so also after a catch handler, in either handler form). Returns the token list with each such `;` put in or left out."""
+    out = []
+    for t in tokens:
+        v, ty = t[0], t[1]
+        if ty == "keyword" and v in ("end", "catch", "finally") and out:
+            pv, pty = out[-1][0], out[-1][1]
+            if pty == "interpunction" and pv == ";":
+                if rnd.random() < p:
+                    out.pop()
+            elif not (pty == "keyword" and pv in ("do", "finally")) and rnd.random() < p:
+                out.append((";", "interpunction"))
+        out.append(t)
+    return out
+
+
 def render(tokens, rnd, layout=True, literal_spelling=True, parens=True, trailing_semicolon=True):
     """tokens: [(value, type, ...)] -> (text, [(line, col) of each input token])"""
     parts = []   # (text, index of the input token or None)
